@@ -503,7 +503,7 @@ class Ir2PyHarness(Harness):
     cut_allowance = 10 ** 6      # loop unwinding cuts are expected and counted
     timeout_ms = 30000
     prove_timeout_ms = 20000
-    prove_fresh_smt = True       # the cvc5 fallback gets the original assertions, not z3's preprocessed solver state
+    prove_fresh_smt = "both"     # the cvc5 fallback tries the original assertions and z3's preprocessed solver state
     shim_modules = ()
 
     def __init__(self, spec):
@@ -704,6 +704,9 @@ def mk_ir2py(**kw):
 # ---------------------------------------------------------------------------------------------------------
 LOOPY = ["while_sum", "for_break", "do_while", "nested_loops", "ifelse", "ternary", "logic", "switch", "recursion", "tail_self",
          "x_ptr_loop", "x_dowhile_phi", "x_swap_loop", "x_neg_index", "x_short_global"]
+# unoptimised `a / b + a % b` goes through alloca stores/loads (byte packing) around sdiv AND srem: only cvc5 on z3's
+# preprocessed form decides it, after two 120 s attempts -> thorough tier only; quick takes the optimised module
+QUICK_OPT_ONLY = ["divmod"]
 ALIAS_QUICK = [("u32", "u8"), ("u8", "u32"), ("i16", "i8"), ("i8", "i16"), ("u64", "i16"), ("i16", "u64"), ("i32", "u16"),
                ("u16", "i32"), ("i64", "i32"), ("i32", "i64"), ("ptr", "u8"), ("u16", "ptr")]
 
@@ -736,8 +739,9 @@ def jobs(tier, seed):
                 if t != "i32":
                     specs.append(dict(kind="phi", name=n, ty=t))
     for p in [q for q in CORPUS_PROGS if q in cprogs.PROGS] + sorted(EXTRA_PROGS):
-        specs.append(dict(kind="c", prog=p, opt=None))
-        if tier != "quick" or p in LOOPY:
+        if tier != "quick" or p not in QUICK_OPT_ONLY:
+            specs.append(dict(kind="c", prog=p, opt=None))
+        if tier != "quick" or p in LOOPY or p in QUICK_OPT_ONLY:
             specs.append(dict(kind="c", prog=p, opt="2"))
         if tier != "quick":
             specs.append(dict(kind="c", prog=p, opt="1"))
